@@ -346,6 +346,18 @@ class Transforms(Sub):
                 out.fail(sig + 'depends-on-memory-layout', 'to_%s gives a different result for a strided view than for a contiguous array' % name)
         if not (np.array_equal(buf[0::2], f) and np.all(buf[1::2] == 3.25)):
             out.fail(sig + 'input-modified', 'a transform wrote into the buffer behind a strided view')
+        # write-protected and integer-typed arrays are the same input as a writeable float array with these values
+        fro = f.copy()
+        fro.setflags(write=False)
+        fi = (np.arange(n) % 7 - 3).astype(np.int64)
+        for name, T in (('fourier', dom.to_fourier), ('real', dom.to_real)):
+            try:
+                if not np.array_equal(np.asarray(T(fro)), np.asarray(T(f.copy())), equal_nan=True):
+                    out.fail(sig + 'depends-on-memory-layout', 'to_%s gives a different result for a write-protected array' % name)
+                if not np.array_equal(np.asarray(T(fi), dtype=float), np.asarray(T(fi.astype(float))), equal_nan=True):
+                    out.fail(sig + 'depends-on-dtype', 'to_%s gives a different result for an integer-typed array than for the same values as floats' % name)
+            except (ValueError, TypeError) as exc:
+                out.fail(sig + 'depends-on-dtype', 'to_%s raised %s: %s for a write-protected / integer-typed array' % (name, type(exc).__name__, exc))
         # MatrixArray versions
         rank = spec['rank']
         for direction in ('fourier', 'real'):
